@@ -260,6 +260,16 @@ impl Walrus {
                 if s.ends_with("_index.db") {
                     continue;
                 }
+                // WAL files are named by a millisecond timestamp; anything else (a leftover
+                // `*_index.db.tmp`, a stray file) is not ours to scan
+                let is_wal_file = path
+                    .file_name()
+                    .and_then(|n| n.to_str())
+                    .map(|n| !n.is_empty() && n.bytes().all(|b| b.is_ascii_digit()))
+                    .unwrap_or(false);
+                if !is_wal_file {
+                    continue;
+                }
                 files.push(s.to_string());
             }
         }
